@@ -115,6 +115,47 @@ def run(ctx):
             R.ob('C19.cons', ('BeforeRequestCons::before', 'errors propagate'), ok and len(seen_err) == 2,
                  'the chain returns the first error, or Ok(()) when every member succeeded', [cons.loc(cons.d)], str([P.describe(r) + str(p) for r, p in rr]))
 
+    # ------------------------------------------------------------ chain building: `then` appends at the end
+    for im in F.trait_impls('BeforeRequestList'):
+        for name, mid in im['methods']:
+            if name != 'then':
+                continue
+            m = F.fns.get(mid)
+            if m is None:
+                continue
+            analysed.append(m.id)
+            who = (im['self_head'] or '?').split('::')[-1]
+            aggs = [(i, j, s) for i, j, s in m.aggregates('BeforeRequestCons')]
+            rr = P.root(P._local_whole(m, 0))
+            ok = len(rr) == 1 and rr[0][0][0] == 'agg'
+            det = ''
+            if ok:
+                agg = rr[0][0]
+                h = P.root(P._field(agg, 0, 0))
+                tl = P.root(P._field(agg, 1, 1))
+                if who == 'BeforeRequestNil':
+                    # Nil.then(next) = Cons(next, Nil)
+                    ok = bool(h) and all(r == ('param', m.id, 2) for r, _ in h) and bool(tl) and all(r[0] in ('param', 'agg', 'const') and r != ('param', m.id, 2) for r, _ in tl)
+                else:
+                    # Cons(first, rest).then(next) = Cons(first, rest.then(next))
+                    head_ok = bool(h) and all(r == ('param', m.id, 1) and [x for x in P.fpath(p)][-1:] in (('0',), (0,)) or (r == ('param', m.id, 1) and any(x[0] == 'f' and str(x[1]) == '0' for x in p)) for r, p in h)
+                    tail_ok = bool(tl)
+                    for r, p in tl:
+                        if not P.is_call(r, 'BeforeRequestList::then'):
+                            tail_ok = False
+                            continue
+                        a = P.args_of(r)
+                        r0 = P.root(a[0])
+                        r1 = P.root(a[1])
+                        if not (r0 and all(x == ('param', m.id, 1) and any(y[0] == 'f' and str(y[1]) == '1' for y in q) for x, q in r0)):
+                            tail_ok = False
+                        if not (r1 and all(x == ('param', m.id, 2) for x, _ in r1)):
+                            tail_ok = False
+                    ok = head_ok and tail_ok
+                    det = 'head: %s tail: %s' % ([P.describe(r) + str(list(norm_path(p))) for r, p in h], [P.describe(r) for r, _ in tl])
+            R.ob('C19.chain', (who + '::then', 'appends the new hook at the end of the chain'), ok,
+                 'chaining keeps the order: the existing head stays first and the new hook is appended behind the rest (recursively), so hooks run in the order they were chained', [m.loc(m.d)], det)
+
     # ------------------------------------------------------------ closure forwards
     for trait, meth in (('BeforeRequest', 'before'), ('AfterRequest', 'after')):
         ims = [im for im in F.trait_impls(trait) if im['self_head'] is None]
